@@ -51,7 +51,8 @@ def run(chk):
     chk.explanation = ('P (comparators): comparison_operator_cmp, bool_cmp, generic_constant_cmp, object_path_component_cmp (every combination of index / name steps) and '
                        'simple_comparison_expression_cmp (modularly: against the contracts of its three callees, not their bodies) return 0 exactly for equal operands, and the sign of '
                        'each is reflexive, antisymmetric and transitive -- lemmas over two and three instances of the function\'s own path summary (vf/summary.py), so they are decided '
-                       'again from the current source on every run; object_path_cmp / constant_cmp / iter_lex_cmp (generators, next()/StopIteration) are assumed callee contracts.  '
+                       'again from the current source on every run; constant_cmp (dispatch over the eight constant kinds, type-order and comparator tables re-read from the source) likewise, against the '
+                       'contracts of the per-kind comparators; object_path_cmp, hex_cmp, bin_cmp, list_cmp and iter_lex_cmp (generators, bytes, sorted lists) remain assumed callee contracts.  '
                        'generic_cmp is the three-way comparison of its operands (ints and strings) and iter_in is membership up to the comparator '
                        '(loop invariant with break); from the contract the == 0 kernel is an equivalence and the sign is antisymmetric and transitive (z3 lemmas), which is what '
                        'sorting and the final comparison of normal forms rely on.  B (carries the property; recursive AST rewriting is outside PyVC): on the generated pattern '
@@ -63,6 +64,8 @@ def run(chk):
         chk.prove(c); chk.canary(c)
     for name, claim in K.cmp_lemmas(): chk.lemma(name, claim)
     K.run_comparators(chk)      # comparison-level comparators: contracts + order lemmas over their path summaries
+    from vf.check import SRC_ROOT
+    K.run_constant_cmp(chk, SRC_ROOT)      # the dispatch over constant kinds, against the per-kind comparators' contracts; tables re-read from the source
 
     pats = PG.patterns(chk.tier)
     texts = []
